@@ -454,7 +454,7 @@ theorem pass_hands (orig : List (Item S)) (hup : ∀ t ∈ cellsOf orig, t.1 = u
         · simp [handOK]
         · have he' : e ∈ r.evs := by simpa using he
           exact handOK_of_not_hand (hnh e he')
-      · simp only [List.cons_append, List.map_cons, List.pairwise_cons, List.append_nil]
+      · simp only [List.map_cons, List.pairwise_cons, List.append_nil]
         refine ⟨?_, ?_⟩
         · intro a ha
           simp only [List.mem_map] at ha
